@@ -336,6 +336,7 @@ fn main() {
             // a source the rule's domain list accepts, when it has one
             let src = match doms.iter().find(|d| !d.starts_with('~')) { Some(d) if r.chance(3, 4) => format!("https://{}/page", d), _ => "https://elsewhere.example/".to_string() };
             let Ok(req) = adblock::request::Request::new(&url, &src, ty) else { continue };
+            register_request(&req, &url, &src, ty);
             sm.oracle_evaluations += 1;
             let (v1, v2) = (engine_verdict(&e1, &req), engine_verdict(&e2, &req));
             if v1.matched { cs.stat("near_twin_rule_matches"); }
